@@ -116,10 +116,26 @@ def encode_opts(kw):
     return kw
 
 
+EXTRA_KEYS = {"L": 1, "lanes": 3, "C": 2000, "rho_max": 48.0, "rho_crit": 12.0, "v_free": 55.0, "a": 1.1, "lam": 7, "name": "model"}
+
+
+def splat_all_constants(kw):
+    """The "all model constants in one dict, splatted into the call" idiom (the repository's own tests do
+    it): keys the step does not consume (L, lanes, C, rho_max, ...) ride along and are ignored."""
+    from vf.desc import FORMS
+
+    r = FORMS["rng"]
+    if r is not None and r.random() < 0.2:
+        for k_, v_ in EXTRA_KEYS.items():
+            if k_ not in kw and r.random() < 0.6:
+                kw[k_] = v_
+    return kw
+
+
 def do_step(net, via="net", rng=None, **kw):
     """One step of `net`, through ``Network.step`` or through the element-level calls; an installed
     StepMonitor observes both the same way."""
-    kw = encode_opts(kw)
+    kw = splat_all_constants(encode_opts(kw))
     if via == "net":
         kw.pop("only_init", None)
         from vf.desc import ORDER, callform
